@@ -520,6 +520,26 @@ def ext_edit_history(rng):
     return dict(settings=st0, events=evs)
 
 
+def pause_history(rng):
+    """a print that is paused and resumed (and asked for its other scripts) while the tool is inside a region with deferred codes pending: the
+    episode goes on, nothing is flushed before the tool really leaves"""
+    reg = dict(type='RectangularRegion', id='p1', x1=10.0 + 1.0 / 2048, y1=10.0 + 1.0 / 2048, x2=20.0 + 1.0 / 2048, y2=20.0 + 1.0 / 2048)
+    st = rnd_settings(rng)
+    evs = [('api', 'addExcludeRegion', reg, False), ('event', 'PRINT_STARTED'), ('cmd', 'G28'), ('cmd', 'G1 X5 Y5 Z0.3 E1 F3000'), ('cmd', 'G1 X15 Y15 E1.5'),
+           ('cmd', 'M204 S500'), ('cmd', 'M117 inside')]
+    for _ in range(rng.randint(1, 4)):
+        k = rng.random()
+        if k < 0.6:
+            evs.append(('script', rng.choice(['gcode', 'gcode', 'other']), rng.choice(['afterPrintPaused', 'beforePrintResumed', 'afterPrintCancelled', 'beforePrintStarted',
+                                                                                      'afterPrinterConnected', 'afterPrintPaused', 'beforeToolChange', 'afterPrintDone2', 'afterPrint'])))
+        elif k < 0.8:
+            evs.append(('event', rng.choice(['PRINT_PAUSED', 'PRINT_RESUMED'])))
+        else:
+            evs.append(('cmd', rng.choice(['M204 T3', 'G1 X16 Y16 E2', 'M73 P5'])))
+    evs += [('cmd', 'G1 X30 Y30 E3'), ('cmd', 'G1 X15 Y15 E3.5'), ('script', 'gcode', 'afterPrintDone'), ('event', 'PRINT_DONE')]
+    return dict(settings=st, events=evs)
+
+
 def hook_history(rng):
     """a job that ends while an episode is open, in the ways the clean-up hook has to cope with: regions deleted or replaced under the
     tool, exclusion switched off and on, pause / resume, mode and unit switches inside the episode, the hook called twice"""
